@@ -46,6 +46,14 @@ Definition G_lolcv := lol_to_coordinates_and_values Z 0 Z.add Z.eqb FUEL.
 Definition G_valid := taco_structure_to_cffi Z 0 Z.add Z.eqb.
 Definition G_items := items Z 0 Z.add Z.eqb FUEL.
 Definition G_to_dok := to_dok Z 0 Z.add Z.eqb.
+Definition G_taco_indices := taco_indices Z 0 Z.add Z.eqb.
+Definition G_taco_vals := taco_vals Z 0 Z.add Z.eqb.
+Definition G_getstate := __getstate__ Z 0 Z.add Z.eqb.
+Definition G_setstate := __setstate__ Z 0 Z.add Z.eqb.
+Definition G_to_format := to_format Z 0 Z.add Z.eqb FUEL.
+Definition state_eqb (a b : list Z * list Z * list Z * list (list (list Z)) * list Z) : bool :=
+  let '(d, m, o, i, v) := a in let '(d', m', o', i', v') := b in
+  zl d d' && zl m m' && zl o o' && zlll i i' && zl v v'.
 """
 
 
@@ -93,8 +101,30 @@ def clol(x) -> str:
     return f"(LolNum {cz(x)})"
 
 
+def raw(t):
+    """The harness's own reading of the C structure (not through the accessors under test)."""
+    from tensora.compile import tensor_cdefs
+
+    c = t.cffi_tensor
+    order = c.order
+    dims, mo, mt = list(c.dimensions[0:order]), list(c.mode_ordering[0:order]), list(c.mode_types[0:order])
+    ixp = tensor_cdefs.cast("int32_t***", c.indices)
+    ix, nnz = [], 1
+    for i in range(order):
+        if mt[i] == 0:
+            ix.append([])
+            nnz *= dims[mo[i]]
+        else:
+            pos = list(ixp[i][0][0:nnz + 1])
+            crd = list(ixp[i][1][0:pos[-1]])
+            ix.append([pos, crd])
+            nnz = len(crd)
+    return ix, list(tensor_cdefs.cast("double*", c.vals)[0:nnz])
+
+
 def cstored(t) -> str:
-    return (f"({czlll(t.taco_indices)}, {czl(t.taco_vals)}, {czl(m.c_int for m in t.modes)}, "
+    ix, vals = raw(t)
+    return (f"({czlll(ix)}, {czl(vals)}, {czl(m.c_int for m in t.modes)}, "
             f"{czl(t.dimensions)}, {czl(t.mode_ordering)})")
 
 
@@ -142,7 +172,8 @@ def t_tensorbuild(rng, n):
         except Exception:  # noqa: BLE001  every exception class is the one error value
             return None
 
-    kinds = ["aos", "aos", "aos_bad", "dok", "soa", "lol", "tree", "arrays", "lolcv", "valid", "items", "to_dok"]
+    kinds = ["aos", "aos", "aos_bad", "dok", "soa", "lol", "tree", "arrays", "lolcv", "valid", "items", "to_dok",
+             "taco", "pickle", "to_format"]
     for i in range(n):
         kind = kinds[i % len(kinds)]
         order = rng.choice([0, 1, 1, 2, 2, 2, 3, 3, 4])
@@ -232,7 +263,7 @@ def t_tensorbuild(rng, n):
             exp = None if r is None else f"({czlll(r[0])}, {czl(r[1])})"
             cases.append(f"chk (pair_eqb zlll zl) (G_arrays {ct} {cmodes(ms)} {czl(dims)}) {copt(exp)}")
             descr.append(f"tree_to_indices_and_values {tree} {ms} {dims}")
-        elif kind in ("valid", "items", "to_dok"):
+        elif kind in ("valid", "items", "to_dok", "taco", "pickle", "to_format"):
             es = rand_entries(order, dims, rng.randrange(0, 7))
             fmt = Format(tuple(modes), tuple(ordering))
             t = guarded(lambda: T.Tensor.from_aos([c for c, _ in es], [v for _, v in es], dimensions=tuple(dims), format=fmt))
@@ -240,7 +271,7 @@ def t_tensorbuild(rng, n):
                 cases.append("false")
                 descr.append(f"from_aos raised on in-range input {es} {dims} {modes} {ordering}")
                 continue
-            ix, vals = t.taco_indices, t.taco_vals
+            ix, vals = raw(t)
             if kind == "valid":
                 ix = [[list(a) for a in lv] for lv in ix]
                 mt, dd, oo = [m.c_int for m in modes], list(dims), list(ordering)
@@ -273,6 +304,44 @@ def t_tensorbuild(rng, n):
                 exp = None if ok is None else f"({czlll(ix)}, {czl(vals)}, {czl(mt)}, {czl(dd)}, {czl(oo)})"
                 cases.append(f"chk stored_eqb (G_valid {czlll(ix)} {czl(vals)} {czl(mt)} {czl(dd)} {czl(oo)}) {copt(exp)}")
                 descr.append(f"taco_structure_to_cffi {ix} {vals} {mt} {dd} {oo}")
+            elif kind in ("taco", "pickle", "to_format"):
+                # the C arrays may be longer than what is read (kernel outputs keep spare capacity): pad them
+                pad = rng.random() < 0.3
+                cix = [[list(a) + ([9] * rng.randrange(1, 3) if pad and a is lv[1] else []) for a in lv] for lv in ix]
+                cvals = list(vals) + ([7.0] if pad else [])
+                six = f"{cz(order)} {cmodes(modes)} {czl(dims)} {czl(ordering)}"
+                six_id = f"{cz(order)} {czl(dims)} {cmodes(modes)} {czl(ordering)}"
+                if kind == "taco":
+                    ti, tv = guarded(lambda: t.taco_indices), guarded(lambda: t.taco_vals)
+                    cases.append(f"chk zlll (G_taco_indices {six_id} {czlll(cix)}) {copt(None if ti is None else czlll(ti))} && "
+                                 f"chk zl (G_taco_vals {six_id} {czlll(cix)} {czl(cvals)}) {copt(None if tv is None else czl(tv))}")
+                    descr.append(f"taco_indices / taco_vals of from_aos {es} dims={dims} {modes} {ordering} (padded={pad})")
+                elif kind == "pickle":
+                    st = guarded(lambda: t.__getstate__())
+                    if st is None:
+                        cases.append(f"chk state_eqb (G_getstate {six} {czlll(cix)} {czl(cvals)}) None")
+                        descr.append(f"__getstate__ raised: from_aos {es} dims={dims} {modes} {ordering}")
+                        continue
+                    cst = (f"({czl(st['dimensions'])}, {czl(st['mode_types'])}, {czl(st['mode_ordering'])}, "
+                           f"{czlll(st['indices'])}, {czl(st['vals'])})")
+                    if rng.random() < 0.3 and st["vals"]:
+                        st = dict(st, vals=st["vals"][:-1])  # a damaged pickle
+                        cst2 = (f"({czl(st['dimensions'])}, {czl(st['mode_types'])}, {czl(st['mode_ordering'])}, "
+                                f"{czlll(st['indices'])}, {czl(st['vals'])})")
+                    else:
+                        cst2 = cst
+                    t2 = T.Tensor.__new__(T.Tensor)
+                    r = guarded(lambda: (t2.__setstate__(st), t2)[1])
+                    cases.append(f"chk state_eqb (G_getstate {six} {czlll(cix)} {czl(cvals)}) (Some {cst}) && "
+                                 f"chk stored_eqb (G_setstate {cst2}) {copt(None if r is None else cstored(r))}")
+                    descr.append(f"__getstate__ / __setstate__ of from_aos {es} dims={dims} {modes} {ordering}")
+                else:
+                    m2, o2 = rand_format(order)
+                    f2 = Format(tuple(m2), tuple(o2))
+                    r = guarded(lambda: t.to_format(f2))
+                    cases.append(f"chk stored_eqb (G_to_format {six} {czlll(cix)} {czl(cvals)} {cfmt(m2, o2)}) "
+                                 f"{copt(None if r is None else cstored(r))}")
+                    descr.append(f"to_format({m2}, {o2}) of from_aos {es} dims={dims} {modes} {ordering}")
             elif kind == "items":
                 its = list(t.items())
                 cases.append(f"chk ents (G_items {cz(order)} {cmodes(modes)} {czl(dims)} {czl(ordering)} {czlll(ix)} {czl(vals)}) "
